@@ -58,6 +58,7 @@ PATHS_SPEC = {'make': lambda prog, tier: h_paths.PathsHarness(prog, tier), 'time
 TITLES_SPEC = {'make': lambda prog, tier: h_titles.TitlesHarness(prog, tier), 'time_limit': {'quick': 300, 'thorough': 600}}
 
 ACTIONS_SPEC = {'make': lambda prog, tier: h_actions.ActionsHarness(prog, tier), 'time_limit': {'quick': 420, 'thorough': 2400}, 'crates': ('liwe', 'iwes')}
+ACTIONS_LISTS_SPEC = {'make': lambda prog, tier: h_actions.ActionsHarness(prog, tier, 'lists'), 'time_limit': {'quick': 420, 'thorough': 2400}, 'crates': ('liwe', 'iwes')}
 ACT_NOTES = COMMON + [
     'ActionContext is a harness stub over the real Graph (same delegation as impl ActionContext for &Server); NodeIter::to_markdown is stubbed to return the '
     'GraphBlocks produced by the real Projector, so the laws read structure; the emitted text, Urls and the re-parse between two actions are outside',
@@ -65,8 +66,8 @@ ACT_NOTES = COMMON + [
 
 PROPS = {
     'C09': {'specs': [ACTIONS_SPEC], 'notes': ACT_NOTES},
-    'C10': {'specs': [ACTIONS_SPEC], 'notes': ACT_NOTES},
-    'C12': {'specs': [ACTIONS_SPEC], 'notes': ACT_NOTES + ['claimed at the handler -> liwe boundary for code actions: action() for every provider x every node of a note never panics, and every offered action resolves (changes() is Some and does not panic); serde, Urls, the router and the other request kinds are outside']},
+    'C10': {'specs': [ACTIONS_SPEC, ACTIONS_LISTS_SPEC], 'notes': ACT_NOTES},
+    'C12': {'specs': [ACTIONS_SPEC, ACTIONS_LISTS_SPEC, dict(LIB_SPEC, crates=('liwe', 'iwes'))], 'notes': ACT_NOTES + ['claimed at the handler -> liwe boundary for code actions: action() for every provider x every node of a note never panics, and every offered action resolves (changes() is Some and does not panic); serde, Urls, the router and the other request kinds are outside']},
     'C06': {'specs': [TITLES_SPEC, LIB_SPEC], 'notes': COMMON + [
         'decision kernel only: link kind x position x url form x (linking directory, target directory) x target has heading; output read from the projected GraphBlocks; '
         'the final "[text](url)" string and the refs_extension concatenation are outside',
